@@ -449,12 +449,12 @@ def r4(ck, F):
 
 
 # ---------------------------------------------------------------------- R5
-def r5(ck, F, std):
+def r5(ck, F, std, rid="C02.R5"):
     EX = D + "EXISTS"
     fns = [D + "set_global_default"] + ([D + "State::set_default"] if std else [])
     for fp in fns:
         b = F.body(fp)
-        if not ck.anchor("C02.R5", fp, b):
+        if not ck.anchor(rid, fp, b):
             continue
         st = [bb for bb2, bb, t, m in atomic_calls(F, EX, {"store"}) if bb2 is b
               and b.origin(t["argv"][1])[0] == "const" and b.origin(t["argv"][1])[1].get("int") == 1]
@@ -468,6 +468,6 @@ def r5(ck, F, std):
                     ok = False
         key = "EXISTS.store(true) on every successful path of %s" % fp.replace(D, "")
         if ok:
-            ck.ok("C02.R5", key, fn=fp)
+            ck.ok(rid, key, fn=fp)
         else:
-            ck.bad("C02.R5", key, where(b.raw["sp"]), "a successful return path does not set EXISTS", fn=fp)
+            ck.bad(rid, key, where(b.raw["sp"]), "a successful return path does not set EXISTS", fn=fp)
